@@ -1020,3 +1020,104 @@ def oracle_c08(op, kv, res, trace, flags):
 
 def nontrivial_c08(op, kv):
     return len(kv.get("h", "")) >= 8
+
+# --------------------------------------------------------------------------
+# C16: operation histories over finders and iterators
+# --------------------------------------------------------------------------
+def gen_c16(tier, rng):
+    quick = tier == "quick"
+    cases = []
+    needles = [b"", b"a", b"ab", b"aba", b"foo", bytes(range(1, 20)), b"xy" + b"z" * 40, b"ab" * 20 + b"c", bytes(range(1, 41))]
+    n_hist = 40 if quick else 400
+    k = 0
+    for x in needles:
+        junk = ((x[:2] or b"q") + b"q") * 70
+        hs = [
+            junk + x,                                  # exhausts an adaptive prefilter, match at the very end
+            x + b"--" + x + b"tail",                   # early matches
+            b"q" * 100,                                # no match
+            (x or b"a") * 5,                           # dense / overlapping
+            junk,                                      # exhausts, no match
+            b"",                                       # empty haystack
+            x[:-1] if x else b"z",                     # shorter than the needle
+        ]
+        hshex = ",".join(hexs(h) for h in hs)
+        fixed = [
+            "F0,F1,F2,F1,F0,D",                              # reuse after a prefilter-exhausting haystack
+            "F4,F1,F4,F3,F6,F5",
+            "F1,C,F1,O,F1,F0,D,A1,A0",                       # clone / into_owned / as_ref
+            "R0,R1,C,R1,O,R1,R3,D",
+            "I1,N,K,N,S,N,N,N",                              # clone a partially consumed iterator
+            "I3,N,S,W,N,S,N,K,N,N,N,N,N,S",                  # into_owned in the middle of an iteration
+            "I0,N,N,F1,N,I1,N,N,N",                          # the finder stays usable while iterating
+            "J3,M,L,M,V,M,M,M,M,M,M",
+            "O,I3,N,N,J3,M,M,D,F0,N,M",
+            "I4,N,N,S,K,N",
+        ]
+        for ops in fixed:
+            for cfg in (("auto", "none") if not quick else ("auto",)):
+                cpu = CPUS[k % 3]; cpus = f" cpu={cpu}" if cpu else ""
+                cases.append(f"hist cfg={cfg} rank={RANKS_MM[k % len(RANKS_MM)]}{cpus} x={hexs(x)} hs={hshex} ops={ops}")
+                k += 1
+        for _ in range(n_hist // len(needles) + 1):
+            L = rng.randrange(3, 13)
+            ops = []
+            have_it = have_rit = False
+            for _ in range(L):
+                t = rng.choice(["F", "F", "R", "A", "C", "O", "D", "I", "J", "N", "N", "S", "K", "W", "M", "M", "L", "V"])
+                if t in "FRAIJ":
+                    t += str(rng.randrange(len(hs)))
+                if t[0] == "I": have_it = True
+                if t[0] == "J": have_rit = True
+                if t[0] in "NSKW" and not have_it: continue
+                if t[0] in "MLV" and not have_rit: continue
+                ops.append(t)
+            if ops:
+                cpu = CPUS[k % 3]; cpus = f" cpu={cpu}" if cpu else ""
+                cases.append(f"hist cfg={rng.choice(['auto', 'none'])} rank={rng.choice(RANKS_MM)}{cpus} x={hexs(x)} hs={hshex} ops={','.join(ops)}")
+                k += 1
+    return cases
+
+def oracle_c16(op, kv, res, trace, flags):
+    x = bytes.fromhex(kv.get("x", ""))
+    hs = [bytes.fromhex(s) for s in kv["hs"].split(",")]
+    if res.startswith("Panic") or res.startswith("CRASH"):
+        return f"history {kv['ops']} did not return normally: {res}"
+    outs = res.split(";") if res else []
+    want = []
+    fit = None; rit = None
+    for t in kv["ops"].split(","):
+        c = t[0]
+        if c in "FA":
+            i = hs[int(t[1:])].find(x); want.append(("=", "None" if i < 0 else f"Some({i})"))
+        elif c == "R":
+            i = hs[int(t[1:])].rfind(x); want.append(("=", "None" if i < 0 else f"Some({i})"))
+        elif c == "D":
+            want.append(("=", "true"))
+        elif c == "I":
+            fit = [greedy_py(hs[int(t[1:])], x), 0]
+        elif c == "J":
+            rit = [rgreedy_py(hs[int(t[1:])], x), 0]
+        elif c == "N":
+            seq, j = fit
+            want.append(("=", f"Some({seq[j]})" if j < len(seq) else "None")); fit[1] = j + 1
+        elif c == "S":
+            seq, j = fit
+            want.append(("hint", max(0, len(seq) - j)))
+        elif c == "M":
+            seq, j = rit
+            want.append(("=", f"Some({seq[j]})" if j < len(seq) else "None")); rit[1] = j + 1
+    if len(outs) != len(want):
+        return f"history {kv['ops']}: {len(outs)} outputs, expected {len(want)}"
+    for j, ((kind, w), o) in enumerate(zip(want, outs)):
+        if kind == "=":
+            if o != w:
+                return f"history {kv['ops']}: output {j} is {o}, a fresh finder for the same needle gives {w}"
+        else:
+            lo, hi = o.split("-")
+            if not (int(lo) <= w and (hi == "inf" or w <= int(hi))):
+                return f"history {kv['ops']}: size_hint {o} does not bracket the {w} matches still to come"
+    return None
+
+def nontrivial_c16(op, kv):
+    return kv.get("ops", "").count(",") >= 2
